@@ -15,7 +15,7 @@ ENTRY = {
         "category": "proof",
         "text": "Lean theorems: Spec.run of a VALUES list of literals is exactly its rows (all catalogs/environments); it is indistinguishable from a stored table with those rows under every operator context (congruence); the model of the planner's lowering equals the reference with all switches off and is wrong on EVERY non-empty list with the valuesEmpty deviation of the unchanged tree. Tie: generated VALUES statements through ExecutionContext::sql judged by Spec.acceptable.",
         "design_ref": "DESIGN.md §6 C44",
-        "level_note": "Trusted: Lean kernel; propext/Classical.choice/Quot.sound; the reference semantics IQE.Spec; the generator's SQL printer/plan serializer pair; the 6-line model of the Values lowering. Contexts with the hole inside a subquery list or CTE definition are not covered by the congruence theorem (sampled only). Unchanged tree: violated (C44-F1), fix proposed in proposed_fixes/C44-values-lowering.patch.",
+        "level_note": "Trusted: Lean kernel; propext/Classical.choice/Quot.sound; the reference semantics IQE.Spec; the generator's SQL printer/plan serializer pair; the 6-line model of the Values lowering. Contexts with the hole inside a subquery list or CTE definition are not covered by the congruence theorem (sampled only). The defect of the original tree (VALUES returned no rows, C44-F1) was repaired by /repo 70263df; its witness is replayed from corpus/C44 on every run.",
         "technique": "Lean 4 proof over reference semantics + executable model; differential correspondence with the Rust engine on generated SQL",
     },
 }
